@@ -73,7 +73,7 @@ Proof.
       - left. exact H1.
       - right. split; [apply (P2 s1 p1 H1) | apply Hdisj; apply (P2 s1 p1 H1)].
       - right. split; [apply (P3 s1 p1 H1) | apply Hdisj; apply (P3 s1 p1 H1)]. }
-    destruct Hm as [->|[ho Hd]]; [apply Hmerged; exact Hp|].
+    destruct Hm as [->|[ho [_ Hd]]]; [apply Hmerged; exact Hp|].
     destruct (proj2 (distribute_homeless_spec _ _ _ _ _ Hd) s p Hp) as [H1|H1]; [apply Hmerged; exact H1|].
     right. destruct (Pw p H1) as [[Hk|Hk] Hn]; [split; assumption | contradiction]. }
   split.
